@@ -70,6 +70,16 @@ def check(repo, tier):
             run.oblige('D1', (entry, scen), not bad, sample={'rule': 'D1', 'scenario': scen, 'sites_contracted': sorted(n_pairs)} if d == 3 and ol and orr and not thr else None)
             if bad:
                 run.add(F(f'{MOD}.__tdmd_reduced_matrix', 'D1', 'site pairing in the reduced matrix', f'{scen}: ' + '; '.join(sorted(set(bad))[:3])))
+            # D2 (standard tDMD): the projected modes are U W with U the left-orthonormal part of the global SVD of x: the spatial cores of the returned
+            # modes (with both orthonormalisation flags) must be left isometries -- a pseudoinverse that carries 1/s on the left of the bond has the same value
+            # but its leading cores are not U
+            if ok and which == 'tdmd_standard' and ol and orr:
+                from .p_c03 import show_unf
+                noniso = [k for k in range(d - 1) if l2rules.core_iso(modes._attrs['cores'][k], 'LO') is False]
+                run.oblige('D2', (entry, scen, 'U part'), not noniso)
+                if noniso:
+                    run.add(F(entry, 'D2', 'left-orthonormal part of the modes', f'{scen}: spatial core {noniso[0]} of the modes is not a left isometry: its unfolding is  '
+                              f'{show_unf(modes._attrs["cores"][noniso[0]], "LO")}  (the projected DMD modes are U W with U^H U = I)'))
             # D2 paired reorder
             if ok and isinstance(ev, Arr) and ev.ndim == 1:
                 lw = ev.legs[0]
